@@ -335,10 +335,31 @@ pub fn check(prop: &str, tier: &str) -> i32 {
 
     // 2. the batch
     let sum = run_batch(prop, tier, seed, b.runs, b.wall_cap_s);
-    for (s, e) in sum.harness_errors.iter().take(5) {
+    // A run that exceeds its wall-clock limit says something about the load of the machine (or a
+    // slow statement), not about the property: a few of them are skipped runs, reported as
+    // such; many of them mean the check itself is not working.
+    let timeouts: Vec<&(u64, String)> =
+        sum.harness_errors.iter().filter(|(_, e)| e.contains("child timed out")).collect();
+    let others: Vec<&(u64, String)> =
+        sum.harness_errors.iter().filter(|(_, e)| !e.contains("child timed out")).collect();
+    let tolerated = 3usize.max(sum.runs / 100);
+    if !timeouts.is_empty() && timeouts.len() <= tolerated {
+        println!(
+            "NOTE: {} of {} runs exceeded the per-run wall-clock limit and were skipped (seeds {})",
+            timeouts.len(),
+            sum.runs,
+            timeouts.iter().take(5).map(|(s, _)| s.to_string()).collect::<Vec<_>>().join(" ")
+        );
+    }
+    for (s, e) in others.iter().take(5) {
         println!("HARNESS-ERROR run seed={s}: {e}");
     }
-    if !sum.harness_errors.is_empty() {
+    if timeouts.len() > tolerated {
+        for (s, e) in timeouts.iter().take(5) {
+            println!("HARNESS-ERROR run seed={s}: {e}");
+        }
+    }
+    if !others.is_empty() || timeouts.len() > tolerated {
         exit = 2;
     }
 
@@ -443,6 +464,7 @@ pub fn check(prop: &str, tier: &str) -> i32 {
     cov["known_finding_hits"] = json!(known_hits);
     cov["unconfirmed_violation_classes"] = json!(unconfirmed);
     cov["violation_classes"] = json!(by_sig.keys().collect::<Vec<_>>());
+    cov["runs_skipped_on_wall_clock_limit"] = json!(timeouts.len());
     let ev = json!({
         "property_id": prop,
         "tier": if tier == "thorough" { "thorough" } else { "quick" },
@@ -451,8 +473,9 @@ pub fn check(prop: &str, tier: &str) -> i32 {
         "coverage": cov,
         "assumptions": [
             "interleavings are explored at await/gate granularity on one thread; preemption inside a poll (multi-threaded runtime) is not modelled",
-            "crash model: directory operations are kept in issue order; un-synced file tails may be lost; loss of directory entries without a parent fsync is not modelled",
-            "the block cache is run at capacity 0 or large only (moka's own timers are not simulated)",
+            "crash model: un-synced file tails may be lost, cut or zero-filled (in the runs that do not steer around known findings also with a page hole); directory entries and renames whose parent was not fsynced may be lost; operations on one file are kept in issue order",
+            "the block cache never evicts on its own (moka's timers are not simulated); cache pressure is applied on demand through a guarded hook (C18 read order 3)",
+            "blocking-pool jobs run inline on the scheduler thread, except in the C15 COPY FROM scenario (real reader thread, timing-independent verdict)",
             "egg's 5 s wall-clock limit is not reached by the generated queries"
         ],
         "wall_s": started.elapsed().as_secs_f64(),
